@@ -369,6 +369,86 @@ pub open spec fn to_string_ok(buf: Seq<u8>, start: int, s: Seq<char>, i: int) ->
     &&& utf8_decode(buf.subrange(start, i)) == Some(s)
 }
 
+/// big-endian 16-bit number at offset `at`
+pub open spec fn be16(buf: Seq<u8>, at: int) -> u16 { (buf[at] as u16 * 256 + buf[at + 1] as u16) as u16 }
+
+/// the first NUL at or after `start` is unique, and so is the decoded string
+pub proof fn lemma_to_string_unique(buf: Seq<u8>, start: int, s1: Seq<char>, i1: int, s2: Seq<char>, i2: int)
+    requires to_string_ok(buf, start, s1, i1), to_string_ok(buf, start, s2, i2),
+    ensures i1 == i2, s1 == s2,
+{
+    if i1 < i2 { assert(buf[i1] != 0); }
+    if i2 < i1 { assert(buf[i2] != 0); }
+}
+
+/// SPECIFICATION (C10, C11, C09): the option part of an RRQ / WRQ / OACK, starting behind the NUL at index `z`:
+/// pairs of NUL-terminated strings up to the end of the datagram; a pair whose lower-cased name is one of the four
+/// option names contributes that option with its decimal value (which must parse), any other pair is skipped
+pub open spec fn opts_decode(buf: Seq<u8>, z: int, opts: Seq<TransferOption>) -> bool
+    decreases buf.len() - z
+{
+    if z >= buf.len() - 1 || z < 0 {
+        opts.len() == 0
+    } else {
+        exists|name: Seq<char>, z1: int, val: Seq<char>, z2: int|
+            #[trigger] to_string_ok(buf, z + 1, name, z1) && #[trigger] to_string_ok(buf, z1 + 1, val, z2)
+            && (match option_of_name(str_lower(name)) {
+                Ok(t) => parse_spec::<usize>(val) is Some && opts.len() > 0
+                    && opts[0] == (TransferOption { option: t, value: parse_spec::<usize>(val)->Some_0 })
+                    && opts_decode(buf, z2, opts.skip(1)),
+                Err(_) => opts_decode(buf, z2, opts),
+            })
+    }
+}
+
+/// one iteration of the option loop of parse_rq / parse_oack keeps "everything decoded so far, followed by whatever
+/// the rest decodes to, is what the whole option part decodes to"
+pub proof fn lemma_opts_step(buf: Seq<u8>, z: int, name: Seq<char>, z1: int, val: Seq<char>, z2: int,
+                             opts0: Seq<TransferOption>, opts1: Seq<TransferOption>, z_start: int)
+    requires
+        0 <= z < buf.len() - 1,
+        to_string_ok(buf, z + 1, name, z1), to_string_ok(buf, z1 + 1, val, z2),
+        forall|rest: Seq<TransferOption>| #[trigger] opts_decode(buf, z, rest) ==> opts_decode(buf, z_start, opts0 + rest),
+        match option_of_name(str_lower(name)) {
+            Ok(t) => parse_spec::<usize>(val) is Some && opts1 == opts0.push(TransferOption { option: t, value: parse_spec::<usize>(val)->Some_0 }),
+            Err(_) => opts1 == opts0,
+        },
+    ensures
+        forall|rest: Seq<TransferOption>| #[trigger] opts_decode(buf, z2, rest) ==> opts_decode(buf, z_start, opts1 + rest),
+{
+    assert forall|rest: Seq<TransferOption>| #[trigger] opts_decode(buf, z2, rest) implies opts_decode(buf, z_start, opts1 + rest) by {
+        match option_of_name(str_lower(name)) {
+            Ok(t) => {
+                let o = TransferOption { option: t, value: parse_spec::<usize>(val)->Some_0 };
+                let rest1 = seq![o] + rest;
+                assert(rest1.skip(1) =~= rest);
+                assert(rest1[0] == o);
+                assert(opts_decode(buf, z, rest1));
+                assert(opts0 + rest1 =~= opts1 + rest);
+            }
+            Err(_) => {
+                assert(opts_decode(buf, z, rest));
+            }
+        }
+    }
+}
+
+/// SPECIFICATION (C10, C11): `p` is what the datagram `buf` decodes to
+pub open spec fn decodes_to(buf: Seq<u8>, p: PktV) -> bool {
+    buf.len() >= 2 && (match p {
+        PktV::Data { block_num, data } => be16(buf, 0) == 3 && buf.len() >= 4 && block_num == be16(buf, 2) && data == buf.subrange(4, buf.len() as int),
+        PktV::Ack(n) => be16(buf, 0) == 4 && buf.len() >= 4 && n == be16(buf, 2),
+        PktV::Error { code, msg } => be16(buf, 0) == 5 && buf.len() >= 4 && errcode_num(code) == be16(buf, 2)
+            && ((exists|i: int| to_string_ok(buf, 4, msg, i)) || msg == "(no message)"@),
+        PktV::Rrq { filename, mode, options } => be16(buf, 0) == 1 && rq_decodes(buf, filename, mode, options),
+        PktV::Wrq { filename, mode, options } => be16(buf, 0) == 2 && rq_decodes(buf, filename, mode, options),
+        PktV::Oack(options) => be16(buf, 0) == 6 && opts_decode(buf, 1, options),
+    })
+}
+pub open spec fn rq_decodes(buf: Seq<u8>, filename: Seq<char>, mode: Seq<char>, options: Seq<TransferOption>) -> bool {
+    exists|z1: int, z2: int| #[trigger] to_string_ok(buf, 2, filename, z1) && #[trigger] to_string_ok(buf, z1 + 1, mode, z2) && opts_decode(buf, z2, options)
+}
+
 /// RFC 1350 opcode numbers
 pub open spec fn opcode_num(o: Opcode) -> u16 {
     match o { Opcode::Rrq => 1, Opcode::Wrq => 2, Opcode::Data => 3, Opcode::Ack => 4, Opcode::Error => 5, Opcode::Oack => 6 }
